@@ -221,7 +221,10 @@ def step (slots : Slots) (line : String) : Slots × String :=
   | ["DEC", s, h] => match slots.get? s, bytesOfHex h with
     | some ⟨p, t, wf⟩, some d =>
       match p.unmarshal d with
-      | (q, .ok) => (followAlias (slots.insert s ⟨q, t, wf⟩) s q, if t then "dec ok" else "dec ok " ++ viewLine q)
+      | (q, .ok) =>
+        -- a CONNECT decoded with the will flag set gets a will of its own: it no longer follows the slot `SetWill` was given
+        let wf' := match q with | .connect c => if has c.flags Connect.fWillFlag then none else wf | _ => wf
+        (followAlias (slots.insert s ⟨q, t, wf'⟩) s q, if t then "dec ok" else "dec ok " ++ viewLine q)
       | (q, .err _) => (followAlias (slots.insert s ⟨q, true, wf⟩) s q, "dec err")
       | (q, .panic) => (followAlias (slots.insert s ⟨q, true, wf⟩) s q, "dec panic")
       | (q, .hang) => (followAlias (slots.insert s ⟨q, true, wf⟩) s q, "dec hang")
